@@ -340,6 +340,8 @@ where
 		let new_wallet_seed = WalletSeed::from_file(&data_dir_name, new)
 			.map_err(|_| Error::Lifecycle("Error opening wallet seed file".into()))?;
 
+		#[cfg(feature = "verif_hooks")]
+		crate::libwallet::verif::point("seed.verify.post").map_err(Error::Lifecycle)?;
 		if orig_wallet_seed != new_wallet_seed {
 			let msg =
 				"New and Old wallet seeds are not equal on password change, not removing backups."
@@ -349,6 +351,8 @@ where
 		// Removin
 		info!("Password change confirmed, removing old seed file.");
 		fs::remove_file(backup_name).map_err(|e| Error::IO(e.to_string()))?;
+		#[cfg(feature = "verif_hooks")]
+		crate::libwallet::verif::point("seed.backup_removed").map_err(Error::Lifecycle)?;
 
 		Ok(())
 	}
